@@ -1,2 +1,18 @@
 import FpgoVerif.Props.C01
 /-! `#print axioms` for every property theorem of C01; parsed by `check`. -/
+#print axioms FpgoVerif.C01.C01_agree
+#print axioms FpgoVerif.C01.C01_absent_obsEq
+#print axioms FpgoVerif.C01.C01_flatMap
+#print axioms FpgoVerif.C01.C01_left_identity
+#print axioms FpgoVerif.C01.C01_right_identity
+#print axioms FpgoVerif.C01.C01_assoc
+#print axioms FpgoVerif.C01.C01_assoc_pure
+#print axioms FpgoVerif.C01.C01_toMaybe
+#print axioms FpgoVerif.C01.C01_toMaybe_flattens
+#print axioms FpgoVerif.C01.C01_clone
+#print axioms FpgoVerif.C01.C01_total
+#print axioms FpgoVerif.C01.C01_gen_interface_observed
+#print axioms FpgoVerif.C01.C01_gen_someDef_methods
+#print axioms FpgoVerif.C01.C01_gen_none_overrides
+#print axioms FpgoVerif.C01.C01_gen_conversions_guarded
+#print axioms FpgoVerif.C01.C01_observe_spec
